@@ -105,7 +105,7 @@ Definition posting_comms (txns : list txn) : list (list N) := map p_comm (flat_m
 
 Definition MetaSpec (lk : lookup) (target : list N) (f : list pentry) (txns : list txn) (recs : list prec) : Prop :=
   StronglySorted str_lt (map pr_source recs) /\
-  (forall c, In c (map pr_source recs) <-> In c (posting_comms txns) /\ has_rate lk f target c) /\
+  (forall c, In c (map pr_source recs) <-> In c (posting_comms txns) /\ c <> target /\ has_rate lk f target c) /\
   (forall r, In r recs ->
      pr_target r = target /\
      match lk with
@@ -134,8 +134,10 @@ Definition rec_ok_b (lk : lookup) (target : list N) (f : list pentry) (r : prec)
   end.
 Definition meta_ok_b (lk : lookup) (target : list N) (f : list pentry) (txns : list txn) (recs : list prec) : bool :=
   strictly_ascending (map pr_source recs)
-  && forallb (fun r => mem_str (pr_source r) (posting_comms txns) && has_rate_b lk f target (pr_source r)) recs
-  && forallb (fun c => negb (has_rate_b lk f target c) || mem_str c (map pr_source recs)) (posting_comms txns)
+  && forallb (fun r => mem_str (pr_source r) (posting_comms txns) && negb (str_eqb (pr_source r) target)
+                       && has_rate_b lk f target (pr_source r)) recs
+  && forallb (fun c => negb (has_rate_b lk f target c) || str_eqb c target || mem_str c (map pr_source recs))
+             (posting_comms txns)
   && forallb (rec_ok_b lk target f) recs.
 
 (* decidable forms of the hypotheses, for the generators' classification *)
